@@ -388,4 +388,25 @@ theorem rtr_modsOf_plain (mods : List TK) (h : mods.all (fun k => k != .and && k
   rw [h1, h2]
   decide
 
+/-! ### well-spelledness: building blocks -/
+
+/-- `wellSpelledNext` of a concatenation: the look-ahead of the first part is the first character of
+    the second part, or the outer look-ahead when the second part renders to nothing -/
+theorem rtin_wellSpelledNext_append (cs : CharSpec) (nx : Option Char) (a b : List Tok) :
+    wellSpelledNext cs nx (a ++ b) = (wellSpelledNext cs ((render b).head?.or nx) a && wellSpelledNext cs nx b) := by
+  induction a with
+  | nil => simp [wellSpelledNext]
+  | cons t ts ih =>
+    simp only [List.cons_append, wellSpelledNext, ih, rtin_render_append, List.head?_append, Bool.and_assoc,
+      Option.or_assoc]
+
+/-- a one-character marker token (`@ # ~ { } ( ) % | : = ? + & * / . ,` …: every kind of the lexer's
+    single-character table) is well spelled whatever follows -/
+theorem rtin_spellOK_single (cs : CharSpec) (k : TK) (c : Char) (nx : Option Char) (h : singleKind c = some k)
+    (hk : k ≠ .escaped ∧ k ≠ .metaStart ∧ k ≠ .textStep ∧ k ≠ .minus ∧ k ≠ .lineComment ∧ k ≠ .blockComment ∧
+      k ≠ .newline ∧ k ≠ .int ∧ k ≠ .zeroInt ∧ k ≠ .ws ∧ k ≠ .punct ∧ k ≠ .word) :
+    spellOK cs k [c] nx = true := by
+  obtain ⟨h1, h2, h3, h4, h5, h6, h7, h8, h9, h10, h11, h12⟩ := hk
+  cases k <;> simp_all [spellOK]
+
 end Cook
